@@ -12,6 +12,7 @@ Portfolio, in order (first definitive answer wins):
 import concurrent.futures
 import hashlib
 import os
+import re
 import subprocess
 import tempfile
 import time
@@ -36,7 +37,42 @@ def to_smt2(hyps, goal):
   for h in hyps:
     s.add(h)
   s.add(z3.Not(goal))
-  return s.to_smt2()
+  return normalise(s.to_smt2())
+
+
+_QID = re.compile(r' :qid k!\d+')
+
+
+def normalise(text):
+  """The text handed to the solvers must depend on the VC only.  z3's printer decides which
+  subterms to let-bind from reference counts in the *process-wide* AST table, so the same VC
+  printed after other functions were processed comes out with a different let structure (same
+  formula, different text, possibly different solver heuristics).  Re-reading the text in a
+  fresh context and printing it from there removes that dependence; let names and quantifier
+  ids are then renumbered in order of occurrence."""
+  ctx = z3.Context()
+  s = z3.Solver(ctx=ctx)
+  s.from_string(text)
+  out = _stable_lets(_QID.sub('', s.to_smt2()))
+  del s, ctx
+  return out
+
+
+_LET = re.compile(r'(?<![\w!.$?])([?$])x(\d+)\b')
+
+
+def _stable_lets(text):
+  """z3 names let-bound subterms after internal AST ids, which differ from process to process;
+  renumber them in order of first occurrence so that the text (and its digest) of a VC depends
+  only on the VC."""
+  names = {}
+
+  def sub(m):
+    k = m.group(0)
+    if k not in names:
+      names[k] = f'{m.group(1)}l{len(names)}'
+    return names[k]
+  return _LET.sub(sub, text)
 
 
 def _run(cmd, path, timeout):
